@@ -47,8 +47,27 @@
 (*             (memory and database) as soon as it learns that files were  *)
 (*             missing - the window between the creation of the file and   *)
 (*             that update remains.                                        *)
+(* Environment / life-cycle axes (cfg.env = TRUE, MC_ResumeEnv*.cfg):          *)
+(*   Damage / ReAdd        the record of the torrent becomes unloadable while  *)
+(*                         the client is down (unknown version after a         *)
+(*                         downgrade, damaged field): the session skips it but *)
+(*                         KEEPS the bucket; the user adds the torrent again   *)
+(*                         under the same ID.  cfg.readd = "fresh": the add    *)
+(*                         writes a whole new record (no bitfield) - the code; *)
+(*                         "keep": keys without a value are not written, the   *)
+(*                         bitfield of the old record survives (EXPECTED to    *)
+(*                         fail);                                              *)
+(*   PlantForeign          data files put there by ANOTHER USER (writable for  *)
+(*                         the client, not owned by it: open(2) with O_NOATIME *)
+(*                         is refused).  cfg.onforeign = "refuse": allocation  *)
+(*                         fails, the torrent stops (the code); "sync": opened *)
+(*                         without O_NOATIME but with O_SYNC; "nosync": the    *)
+(*                         fallback drops O_SYNC as well (EXPECTED to fail).   *)
+(*   nosync                files whose handle of this life is not O_SYNC: a    *)
+(*                         returned write into them is only "dirty".           *)
 (* Configuration is a variable that never changes (traces bring their own  *)
-(* geometry): cfg = [np, nf, fo (piece -> files), sync, design, werr].     *)
+(* geometry): cfg = [np, nf, fo (piece -> files), sync, design, werr,      *)
+(* env, onforeign, readd].                                                 *)
 (***************************************************************************)
 EXTENDS Integers, FiniteSets, Sequences, TLC
 
@@ -64,9 +83,12 @@ VARIABLES cfg,
           wok,       \* [Piece -> BOOLEAN] : every attempted section of the running write reached its file
           memKnown, memBit,   \* t.bitfield (nil / set)
           dbKnown, dbBit,     \* resume record: key "bitfield"
-          txn        \* [active, known, bits] : database update in flight
+          txn,       \* [active, known, bits] : database update in flight
+          nosync,    \* SUBSET File : files opened WITHOUT O_SYNC in this process life
+          recok,     \* the resume record of the torrent can be loaded (FALSE: the session skips it and keeps the bucket)
+          foreignf   \* SUBSET File : existing data files that are owned by another user
 
-vars == <<cfg, disk, dirty, exist, phase, aidx, almiss, alexist, wr, sec, wok, sec, wok, memKnown, memBit, dbKnown, dbBit, txn>>
+vars == <<cfg, disk, dirty, exist, phase, aidx, almiss, alexist, wr, sec, wok, sec, wok, memKnown, memBit, dbKnown, dbBit, txn, nosync, recok, foreignf>>
 
 Piece == 0 .. (cfg.np - 1)
 File  == 0 .. (cfg.nf - 1)
@@ -87,34 +109,65 @@ I0(c) ==
 InitWith(c) ==
     /\ cfg = c /\ disk = I0(c).disk /\ dirty = {} /\ exist = I0(c).exist /\ phase = "down" /\ aidx = 0
     /\ almiss = FALSE /\ alexist = FALSE /\ wr = I0(c).wr /\ sec = I0(c).sec /\ wok = I0(c).wok /\ memKnown = FALSE /\ memBit = {}
-    /\ dbKnown = FALSE /\ dbBit = {} /\ txn = NoTxn
+    /\ dbKnown = FALSE /\ dbBit = {} /\ txn = NoTxn /\ nosync = {} /\ recok = TRUE /\ foreignf = {}
 
 ResetWith(c) ==
     /\ cfg' = c /\ disk' = I0(c).disk /\ dirty' = {} /\ exist' = I0(c).exist /\ phase' = "down" /\ aidx' = 0
     /\ almiss' = FALSE /\ alexist' = FALSE /\ wr' = I0(c).wr /\ sec' = I0(c).sec /\ wok' = I0(c).wok /\ memKnown' = FALSE /\ memBit' = {}
-    /\ dbKnown' = FALSE /\ dbBit' = {} /\ txn' = NoTxn
+    /\ dbKnown' = FALSE /\ dbBit' = {} /\ txn' = NoTxn /\ nosync' = {} /\ recok' = TRUE /\ foreignf' = {}
 
 \* --- process start: the resume record is loaded ------------------------------
 Restart ==
-    /\ phase = "down"
+    /\ phase = "down" /\ recok
     /\ phase' = "alloc" /\ aidx' = 0 /\ almiss' = FALSE /\ alexist' = FALSE
-    /\ memKnown' = dbKnown /\ memBit' = dbBit
-    /\ UNCHANGED <<cfg, disk, dirty, exist, wr, sec, wok, dbKnown, dbBit, txn>>
+    /\ memKnown' = dbKnown /\ memBit' = dbBit /\ nosync' = {}
+    /\ UNCHANGED <<cfg, recok, foreignf, disk, dirty, exist, wr, sec, wok, dbKnown, dbBit, txn>>
+
+\* the record became unloadable while the client was down; the bucket (with its bitfield) stays in the database
+Damage ==
+    /\ cfg.env /\ phase = "down" /\ recok
+    /\ recok' = FALSE
+    /\ UNCHANGED <<cfg, nosync, foreignf, disk, dirty, exist, phase, aidx, almiss, alexist, wr, sec, wok, memKnown, memBit, dbKnown, dbBit, txn>>
+
+\* the session came up without the torrent; it is added again under the same ID: the add rewrites the record in ONE
+\* update - "fresh": every key, the bitfield key becomes empty; "keep": empty values are not stored
+ReAdd ==
+    /\ cfg.env /\ phase = "down" /\ ~recok
+    /\ recok' = TRUE /\ phase' = "alloc" /\ aidx' = 0 /\ almiss' = FALSE /\ alexist' = FALSE
+    /\ memKnown' = FALSE /\ memBit' = {} /\ nosync' = {}
+    /\ IF cfg.readd = "keep" THEN UNCHANGED <<dbKnown, dbBit>> ELSE dbKnown' = FALSE /\ dbBit' = {}
+    /\ UNCHANGED <<cfg, foreignf, disk, dirty, exist, wr, sec, wok, txn>>
+
+\* another user puts (stale) copies of data files into the download directory while the client is down
+PlantForeign(F) ==
+    /\ cfg.env /\ phase = "down" /\ F # {} /\ \A f \in F : ~exist[f]
+    /\ ~(dbKnown /\ PiecesOf(F) \cap dbBit # {})      \* (not an adversary: nothing is claimed in the files that appear)
+    /\ exist' = [f \in File |-> exist[f] \/ f \in F] /\ foreignf' = foreignf \cup F
+    /\ disk' = [p \in Piece |-> IF cfg.fo[p] \cap F = {} THEN disk[p] ELSE "partial"]
+    /\ UNCHANGED <<cfg, nosync, recok, dirty, phase, aidx, almiss, alexist, wr, sec, wok, memKnown, memBit, dbKnown, dbBit, txn>>
 
 \* --- allocation ---------------------------------------------------------------
 \* "safe": before the first missing file is created, the bitfield is dropped durably (one transaction)
 AllocInvalidate ==
-    /\ cfg.design = "safe" /\ phase = "alloc" /\ aidx < cfg.nf /\ ~exist[aidx] /\ (dbKnown \/ memKnown) /\ ~txn.active
+    /\ cfg.design = "safe" /\ phase = "alloc" /\ aidx < cfg.nf /\ ~exist[aidx] /\ memKnown /\ ~txn.active
     /\ memKnown' = FALSE /\ memBit' = {} /\ dbKnown' = FALSE /\ dbBit' = {}
-    /\ UNCHANGED <<cfg, disk, dirty, exist, phase, aidx, almiss, alexist, wr, sec, wok, txn>>
+    /\ UNCHANGED <<cfg, nosync, recok, foreignf, disk, dirty, exist, phase, aidx, almiss, alexist, wr, sec, wok, txn>>
 
+Foreign(f) == exist[f] /\ f \in foreignf
 AllocOpen ==       \* storage.Open(file aidx): opens it, or creates it with zero content
     /\ phase = "alloc" /\ aidx < cfg.nf
-    /\ cfg.design = "safe" => (exist[aidx] \/ ~(dbKnown \/ memKnown))
+    /\ cfg.design = "safe" => (exist[aidx] \/ ~memKnown)
+    /\ Foreign(aidx) => cfg.onforeign # "refuse"
     /\ IF exist[aidx] THEN alexist' = TRUE /\ UNCHANGED <<almiss, exist>>
        ELSE almiss' = TRUE /\ exist' = [exist EXCEPT ![aidx] = TRUE] /\ UNCHANGED alexist
+    /\ nosync' = IF Foreign(aidx) /\ cfg.onforeign = "nosync" THEN nosync \cup {aidx} ELSE nosync
     /\ aidx' = aidx + 1
-    /\ UNCHANGED <<cfg, disk, dirty, phase, wr, sec, wok, memKnown, memBit, dbKnown, dbBit, txn>>
+    /\ UNCHANGED <<cfg, recok, foreignf, disk, dirty, phase, wr, sec, wok, memKnown, memBit, dbKnown, dbBit, txn>>
+
+AllocRefuse ==     \* open(2) of a file owned by another user is refused: allocation error, the torrent is stopped
+    /\ phase = "alloc" /\ aidx < cfg.nf /\ Foreign(aidx) /\ cfg.onforeign = "refuse"
+    /\ phase' = "stopped"
+    /\ UNCHANGED <<cfg, nosync, recok, foreignf, disk, dirty, exist, aidx, almiss, alexist, wr, sec, wok, memKnown, memBit, dbKnown, dbBit, txn>>
 
 AllocDone ==       \* handleAllocationDone: trust the bits / start empty / verify
     /\ phase = "alloc" /\ aidx = cfg.nf
@@ -128,15 +181,15 @@ AllocDone ==       \* handleAllocationDone: trust the bits / start empty / verif
             /\ IF cfg.design = "patched" /\ memKnown
                THEN ~txn.active /\ memKnown' = FALSE /\ memBit' = {} /\ dbKnown' = FALSE /\ dbBit' = {}
                ELSE UNCHANGED <<memKnown, memBit, dbKnown, dbBit>>
-    /\ UNCHANGED <<cfg, disk, dirty, exist, aidx, almiss, alexist, wr, sec, wok, txn>>
+    /\ UNCHANGED <<cfg, nosync, recok, foreignf, disk, dirty, exist, aidx, almiss, alexist, wr, sec, wok, txn>>
 
 VerifyDone ==      \* the verifier's bitfield replaces t.bitfield (and is written, see PersistBegin)
     /\ phase = "verify"
     /\ phase' = "run" /\ memKnown' = TRUE /\ memBit' = {p \in Piece : View(p) = "good"}
-    /\ UNCHANGED <<cfg, disk, dirty, exist, aidx, almiss, alexist, wr, sec, wok, dbKnown, dbBit, txn>>
+    /\ UNCHANGED <<cfg, nosync, recok, foreignf, disk, dirty, exist, aidx, almiss, alexist, wr, sec, wok, dbKnown, dbBit, txn>>
 
 \* --- download --------------------------------------------------------------------
-Sync(p) == cfg.sync
+Sync(p) == cfg.sync /\ cfg.fo[p] \cap nosync = {}
 
 NSec(p) == Cardinality(cfg.fo[p])      \* a piece is written with one storage write per file it overlaps
 
@@ -145,19 +198,19 @@ WriteBegin(p) ==   \* the piece writer got a complete, hash-checked piece
     /\ wr' = [wr EXCEPT ![p] = "writing"] /\ sec' = [sec EXCEPT ![p] = 0] /\ wok' = [wok EXCEPT ![p] = TRUE]
     /\ IF Sync(p) THEN disk' = [disk EXCEPT ![p] = "partial"] /\ dirty' = dirty \ {p}
                   ELSE UNCHANGED <<disk, dirty>>
-    /\ UNCHANGED <<cfg, exist, phase, aidx, almiss, alexist, memKnown, memBit, dbKnown, dbBit, txn>>
+    /\ UNCHANGED <<cfg, nosync, recok, foreignf, exist, phase, aidx, almiss, alexist, memKnown, memBit, dbKnown, dbBit, txn>>
 
 WriteSec(p) ==     \* the storage write of the next file section returned without error
     /\ wr[p] = "writing" /\ sec[p] < NSec(p)
     /\ sec' = [sec EXCEPT ![p] = sec[p] + 1]
-    /\ UNCHANGED <<cfg, disk, dirty, exist, phase, aidx, almiss, alexist, wr, wok, memKnown, memBit, dbKnown, dbBit, txn>>
+    /\ UNCHANGED <<cfg, nosync, recok, foreignf, disk, dirty, exist, phase, aidx, almiss, alexist, wr, wok, memKnown, memBit, dbKnown, dbBit, txn>>
 
 WriteFail(p) ==    \* the storage write of the next file section fails (at any section position)
     /\ wr[p] = "writing" /\ sec[p] < NSec(p)
     /\ IF cfg.werr = "first" \/ sec[p] = NSec(p) - 1
        THEN wr' = [wr EXCEPT ![p] = "failed"] /\ sec' = [sec EXCEPT ![p] = 0] /\ wok' = [wok EXCEPT ![p] = TRUE]   \* Piece.Write returns the error
        ELSE sec' = [sec EXCEPT ![p] = sec[p] + 1] /\ wok' = [wok EXCEPT ![p] = FALSE] /\ UNCHANGED wr  \* "last": forgotten
-    /\ UNCHANGED <<cfg, disk, dirty, exist, phase, aidx, almiss, alexist, memKnown, memBit, dbKnown, dbBit, txn>>
+    /\ UNCHANGED <<cfg, nosync, recok, foreignf, disk, dirty, exist, phase, aidx, almiss, alexist, memKnown, memBit, dbKnown, dbBit, txn>>
 
 WriteEnd(p) ==     \* Write returned without error
     /\ wr[p] = "writing" /\ sec[p] = NSec(p)
@@ -166,52 +219,54 @@ WriteEnd(p) ==     \* Write returned without error
        ELSE IF Sync(p) THEN disk' = [disk EXCEPT ![p] = "good"] /\ UNCHANGED dirty
                   ELSE dirty' = dirty \cup {p} /\ UNCHANGED disk
     /\ sec' = [sec EXCEPT ![p] = 0] /\ wok' = [wok EXCEPT ![p] = TRUE]
-    /\ UNCHANGED <<cfg, exist, phase, aidx, almiss, alexist, memKnown, memBit, dbKnown, dbBit, txn>>
+    /\ UNCHANGED <<cfg, nosync, recok, foreignf, exist, phase, aidx, almiss, alexist, memKnown, memBit, dbKnown, dbBit, txn>>
 
 FailHandled(p) ==  \* handlePieceWriteDone with pw.Error: the torrent is stopped, the piece is NOT marked (stop persists the
                    \* bitfield as it is - PersistBegin; a later Start re-opens the existing files and keeps the bitfield)
     /\ phase = "run" /\ wr[p] = "failed"
     /\ wr' = [wr EXCEPT ![p] = "idle"]
-    /\ UNCHANGED <<cfg, disk, dirty, exist, phase, aidx, almiss, alexist, sec, wok, memKnown, memBit, dbKnown, dbBit, txn>>
+    /\ UNCHANGED <<cfg, nosync, recok, foreignf, disk, dirty, exist, phase, aidx, almiss, alexist, sec, wok, memKnown, memBit, dbKnown, dbBit, txn>>
 
 SetBit(p) ==       \* handlePieceWriteDone
     /\ phase = "run" /\ wr[p] = "written"
     /\ wr' = [wr EXCEPT ![p] = "idle"] /\ memBit' = memBit \cup {p}
-    /\ UNCHANGED <<cfg, disk, dirty, exist, phase, aidx, almiss, alexist, sec, wok, memKnown, dbKnown, dbBit, txn>>
+    /\ UNCHANGED <<cfg, nosync, recok, foreignf, disk, dirty, exist, phase, aidx, almiss, alexist, sec, wok, memKnown, dbKnown, dbBit, txn>>
 
 OsFlush(p) ==      \* the kernel writes back a dirty page some time
     /\ p \in dirty /\ dirty' = dirty \ {p} /\ disk' = [disk EXCEPT ![p] = "good"]
-    /\ UNCHANGED <<cfg, exist, phase, aidx, almiss, alexist, wr, sec, wok, memKnown, memBit, dbKnown, dbBit, txn>>
+    /\ UNCHANGED <<cfg, nosync, recok, foreignf, exist, phase, aidx, almiss, alexist, wr, sec, wok, memKnown, memBit, dbKnown, dbBit, txn>>
 
 \* --- persistence: periodic | stop | complete | verified - all write t.bitfield as it is now ---------
 PersistBegin ==
     /\ Up /\ memKnown /\ ~txn.active
     /\ txn' = [active |-> TRUE, known |-> TRUE, bits |-> memBit]
-    /\ UNCHANGED <<cfg, disk, dirty, exist, phase, aidx, almiss, alexist, wr, sec, wok, memKnown, memBit, dbKnown, dbBit>>
+    /\ UNCHANGED <<cfg, nosync, recok, foreignf, disk, dirty, exist, phase, aidx, almiss, alexist, wr, sec, wok, memKnown, memBit, dbKnown, dbBit>>
 
 PersistCommit ==
     /\ txn.active
     /\ dbKnown' = txn.known /\ dbBit' = txn.bits /\ txn' = NoTxn
-    /\ UNCHANGED <<cfg, disk, dirty, exist, phase, aidx, almiss, alexist, wr, sec, wok, memKnown, memBit>>
+    /\ UNCHANGED <<cfg, nosync, recok, foreignf, disk, dirty, exist, phase, aidx, almiss, alexist, wr, sec, wok, memKnown, memBit>>
 
 \* --- failure and environment ----------------------------------------------------
 Crash ==
     /\ Up
-    /\ phase' = "down" /\ dirty' = {} /\ memKnown' = FALSE /\ memBit' = {} /\ aidx' = 0 /\ almiss' = FALSE /\ alexist' = FALSE
+    /\ phase' = "down" /\ dirty' = {} /\ nosync' = {} /\ memKnown' = FALSE /\ memBit' = {} /\ aidx' = 0 /\ almiss' = FALSE /\ alexist' = FALSE
     /\ wr' = [p \in Piece |-> "idle"] /\ txn' = NoTxn /\ sec' = [p \in Piece |-> 0] /\ wok' = [p \in Piece |-> TRUE]
     /\ \/ UNCHANGED <<dbKnown, dbBit>>
        \/ txn.active /\ dbKnown' = txn.known /\ dbBit' = txn.bits
-    /\ UNCHANGED <<cfg, disk, exist>>
+    /\ UNCHANGED <<cfg, recok, foreignf, disk, exist>>
 
 DeleteFiles(F) ==
     /\ phase = "down" /\ F # {} /\ \A f \in F : exist[f]
     /\ exist' = [f \in File |-> exist[f] /\ f \notin F]
     /\ disk' = [p \in Piece |-> IF cfg.fo[p] \cap F = {} THEN disk[p]
                                 ELSE IF \A f \in cfg.fo[p] : ~exist'[f] \/ disk[p] = "nil" THEN "nil" ELSE "partial"]
-    /\ UNCHANGED <<cfg, dirty, phase, aidx, almiss, alexist, wr, sec, wok, memKnown, memBit, dbKnown, dbBit, txn>>
+    /\ foreignf' = foreignf \ F
+    /\ UNCHANGED <<cfg, nosync, recok, dirty, phase, aidx, almiss, alexist, wr, sec, wok, memKnown, memBit, dbKnown, dbBit, txn>>
 
 Next ==
-    \/ Restart \/ AllocInvalidate \/ AllocOpen \/ AllocDone \/ VerifyDone
+    \/ Restart \/ AllocInvalidate \/ AllocOpen \/ AllocRefuse \/ AllocDone \/ VerifyDone
+    \/ Damage \/ ReAdd \/ \E F \in SUBSET File : PlantForeign(F)
     \/ \E p \in Piece : WriteBegin(p) \/ WriteSec(p) \/ WriteFail(p) \/ WriteEnd(p) \/ FailHandled(p) \/ SetBit(p) \/ OsFlush(p)
     \/ PersistBegin \/ PersistCommit \/ Crash
     \/ \E F \in SUBSET File : DeleteFiles(F)
@@ -232,8 +287,9 @@ InvTrust == (phase = "run" /\ memKnown) => TrustSound(memBit, [p \in Piece |-> V
 InvMissing == (phase = "run" /\ memKnown /\ almiss) => \A p \in memBit : View(p) = "good"
 TypeOK ==
     /\ disk \in [Piece -> {"nil", "partial", "good"}] /\ dirty \subseteq Piece /\ exist \in [File -> BOOLEAN]
-    /\ phase \in {"down", "alloc", "verify", "run"} /\ aidx \in 0 .. cfg.nf
+    /\ phase \in {"down", "alloc", "verify", "run", "stopped"} /\ aidx \in 0 .. cfg.nf
     /\ memBit \subseteq Piece /\ dbBit \subseteq Piece /\ wr \in [Piece -> {"idle", "writing", "written", "failed"}]
     /\ \A p \in Piece : sec[p] \in 0 .. NSec(p)
+    /\ nosync \subseteq File /\ foreignf \subseteq File /\ recok \in BOOLEAN
 Inv == TypeOK /\ InvDb /\ InvTrust /\ InvMissing
 =============================================================================
